@@ -311,6 +311,25 @@ func (c *Ctx) typedNilRule(r *Report, rule string) {
 						return w
 					}
 				}
+			case *ssa.Call:
+				// a module function that returns a concrete pointer (a Decode function retyped from the interface
+				// to *T): what it returns for an unsupported transform is a nil *T
+				cal := x.Call.StaticCallee()
+				if cal == nil || !c.InModule(cal) || len(cal.Blocks) == 0 || cal.Signature.Results().Len() != 1 {
+					return ""
+				}
+				for _, b := range cal.Blocks {
+					ret, ok := b.Instrs[len(b.Instrs)-1].(*ssa.Return)
+					if !ok || len(ret.Results) != 1 {
+						continue
+					}
+					if w := walk(ret.Results[0], depth+1); w != "" {
+						if w == "the value of a comma-ok map lookup" {
+							continue
+						}
+						return w + " (returned by " + c.FuncName(cal) + ")"
+					}
+				}
 			}
 			return ""
 		}
